@@ -69,6 +69,7 @@ pub struct Ctx {
     pub nshards: u64,
     /// replay mode: only this case key is executed
     pub only_case: Option<String>,
+    pub trace: bool,
     pub case_key: String,
     pub rng: Rng,
     pub start: Instant,
@@ -95,6 +96,7 @@ impl Ctx {
             shard,
             nshards,
             only_case: None,
+            trace: std::env::var("VX_TRACE").is_ok(),
             case_key: String::new(),
             rng: Rng::new(0),
             start: now,
@@ -145,6 +147,9 @@ impl Ctx {
                     break;
                 }
                 self.case_key = key.clone();
+                if self.trace {
+                    eprintln!("[vx] case {}", key);
+                }
                 self.rng = Rng::from_parts(&[self.seed, pr, ph, idx]);
                 let r = guard(|| f(self, idx));
                 if let Err(p) = r {
